@@ -1,5 +1,25 @@
 /-
-  Props/C19DecodedLinear.lean — C19 / C16 on IEEE floats, END TO END for LINEAR sliders.
+  Props/C19DecodedLinear.lean — C19 / C16 on IEEE floats, END TO END for LINEAR sliders (no requested length).
+
+  The hypotheses of `positionAt_progress_err_float32_nofin` (Props/C19IeeeFinite.lean) are DERIVED for the curve the crate
+  computes (`Curve::new` = `calculate_path` + `calculate_length`) from control points that form linear segments only:
+
+  1. **`linear_path_vertices`** (every arithmetic, mode, fuel, buffers): for `AllLinear` control points every vertex of the
+     path `calculate_path` returns is the position of a control point (membership — the joint de-duplication may drop
+     repeated points), the path is non-empty when there is a control point, and `optimized_len = 0.0`. Hence `Bounded19` /
+     `FinitePos` transfer from control points to path vertices.
+  2. **`natural_lengths_sorted_float`**: for a path with finite coordinates the natural lengths `0.0 :: cumLens 0.0 path` are
+     `Sorted` (Props/C19IeeeSearch.lean), start with `0.0`, are `≥ 0`, and are as many as path points.
+  3. `linear_curve_shape` + **`linear_curve_position_err_float32_partial`**: control points `AllLinear`, finite, bounded by
+     `2¹⁹`, no requested length, any progress that is a number: `position_at` returns a point within `1/4` px per coordinate
+     of a segment between two consecutive path vertices, both control-point positions. PARTIAL in one hypothesis only:
+     `hbf` — the last (total) natural length is finite, i.e. the `f64` running sum did not overflow. The statement without
+     it (for at most `2⁴⁰` path points) is recorded as `linear_curve_position_err_float32_statement`; what is missing is a
+     RANGE lemma for `f64::sqrt` (finite non-negative argument ⟹ finite root: Lemmas/FloatErrSqrt.lean has the error
+     bound only under the hypothesis that the root is finite), after which each booked length is `≤ 2²⁴` and the running
+     sum of `n ≤ 2⁴⁰` of them stays below `2⁷⁰`. `hbf_iff_all_finite`: `hbf` is equivalent to all lengths being finite.
+  Kernel-evaluated non-vacuity: control points `(100,200) L, (107,224), (100,200)` → the demo curve of
+  Props/C19IeeeSearch.lean (`linCps_curve`), every hypothesis (including `hbf`) checked on it.
 -/
 import RosuModel.Props.C19IeeeFinite
 import RosuModel.Props.C16IeeeAdj
@@ -278,6 +298,44 @@ theorem linear_curve_position_err_float32_partial (fuel : Nat) (mode : GameMode)
     rcases hk1 with hk1 | hk1
     · exact hmem p1 (List.mem_of_getElem? hk1)
     · rw [hk1]; exact hmem p0 (List.mem_of_getElem? hk0)
+
+/-- the full statement: `linear_curve_position_err_float32_partial` WITHOUT the hypothesis that the total length is finite,
+for curves of at most `2⁴⁰` path points (for points bounded by `2¹⁹` each booked length is `≤ 2²⁴`, so the `f64` running sum
+cannot overflow). Not proved: see the file header (a range lemma for `f64::sqrt` is missing). -/
+def linear_curve_position_err_float32_statement : Prop :=
+  ∀ (fuel : Nat) (mode : GameMode) (pts : List (PathControlPoint Float32))
+    (b b' : CurveBuffers Float32 Float) (c : Curve Float32 Float) (q : Float),
+    AllLinear pts → pts ≠ [] → (∀ cp ∈ pts, Bounded19 cp.pos) → (∀ cp ∈ pts, FinitePos cp.pos) →
+    Curve.new fuel mode pts none b = .ok (c, b') → c.path.length ≤ 2 ^ 40 → Scalar.isNaN q = false →
+    ∃ (p : Pos Float32) (k : Nat) (p0 p1 : Pos Float32) (w : ℚ),
+      positionAt c.path c.lengths q = .ok p ∧
+      c.path[k]? = some p0 ∧ (c.path[k + 1]? = some p1 ∨ p1 = p0) ∧
+      (∃ cp ∈ pts, cp.pos = p0) ∧ (∃ cp ∈ pts, cp.pos = p1) ∧ 0 ≤ w ∧ w ≤ 1 ∧
+      |toRat32 p.x - (toRat32 p0.x + w * (toRat32 p1.x - toRat32 p0.x))| < 1 / 4 ∧
+      |toRat32 p.y - (toRat32 p0.y + w * (toRat32 p1.y - toRat32 p0.y))| < 1 / 4
+
+/-- the hypothesis `hbf` says that ALL lengths of the curve are finite (they are `≥ 0` and never decrease). -/
+theorem hbf_iff_all_finite (fuel : Nat) (mode : GameMode) (pts : List (PathControlPoint Float32))
+    (b b' : CurveBuffers Float32 Float) (c : Curve Float32 Float)
+    (hl : AllLinear pts) (hne : pts ≠ []) (hfp : ∀ cp ∈ pts, FinitePos cp.pos)
+    (h : Curve.new fuel mode pts none b = .ok (c, b')) :
+    (∀ x, c.lengths.getLast? = some x → FX.Finite64 x) ↔ ∀ v ∈ c.lengths, FX.Finite64 v := by
+  obtain ⟨hmem, hnon, hlens⟩ := linear_curve_shape fuel mode pts b b' c hl hne h
+  have hfp' : ∀ p ∈ c.path, FinitePos p := by
+    intro p hp; obtain ⟨cp, hcp, rfl⟩ := hmem p hp; exact hfp cp hcp
+  have hg := natLens_good_float 0 c.path zero_le_zero_float hfp'
+  rw [← hlens] at hg
+  constructor
+  · intro hb v hv
+    cases hlast : c.lengths.getLast? with
+    | none => rw [List.getLast?_eq_none_iff] at hlast; rw [hlast] at hv; cases hv
+    | some bl =>
+      have hd : dist c.lengths = bl := by unfold dist; rw [hlast]
+      have := hg.le_dist v hv
+      rw [hd] at this
+      exact finite_of_le_finite v bl (hg.2 v hv) this (hb bl hlast)
+  · intro hall x hx
+    exact hall x (List.mem_of_getLast? hx)
 
 end New
 /-! ## non-vacuity: control points `(100,200) L, (107,224), (100,200)` → the demo curve, kernel-evaluated -/
